@@ -254,11 +254,13 @@ pub struct LogHost<H: Host> {
     pub tape: Tape,
     pub lies: Lies,
     pub quiet: bool,
+    /// an advice injector / decorator (host side, outside the VM semantics) returned an error
+    pub decorator_failed: bool,
 }
 
 impl<H: Host> LogHost<H> {
     pub fn new(inner: H) -> Self {
-        Self { inner, tape: Tape::default(), lies: Lies::default(), quiet: true }
+        Self { inner, tape: Tape::default(), lies: Lies::default(), quiet: true, decorator_failed: false }
     }
     fn lie_elem(&self, k: usize, v: Felt) -> Felt {
         for (i, x) in &self.lies.adv_override {
@@ -309,7 +311,16 @@ impl<H: Host> Host for LogHost<H> {
         process: &S,
         injector: AdviceInjector,
     ) -> Result<HostResponse, ExecutionError> {
-        let r = self.inner.set_advice(process, injector)?;
+        let r = match self.inner.set_advice(process, injector) {
+            Ok(r) => r,
+            Err(e) => {
+                // MRUPDATE asks for its path through set_advice: that is VM semantics, not a decorator
+                if !matches!(injector, AdviceInjector::UpdateMerkleNode) {
+                    self.decorator_failed = true;
+                }
+                return Err(e);
+            }
+        };
         Ok(match r {
             HostResponse::MerklePath(p) => HostResponse::MerklePath(self.log_path(p)),
             other => other,
@@ -451,6 +462,13 @@ pub fn run_impl<H: Host>(
         }
     }));
     let tape = lh.tape.clone();
+    if lh.decorator_failed {
+        let a = match res {
+            Ok((a, _)) => a,
+            Err(_) => "err Panic".into(),
+        };
+        return ImplRun { answer: format!("skip decorator-error {}", a), tape, panicked: false, ok: false };
+    }
     match res {
         Err(_) => ImplRun { answer: "err Panic".into(), tape, panicked: true, ok: false },
         Ok((mut a, ok)) => {
